@@ -511,6 +511,13 @@ fn random_number_views(src: &mut Src, obs: &mut Obs) -> Res {
             },
             _ => num(src),
         };
+        // one row in four holds the two numbers inside containers of the same shape (a span next to its parent's,
+        // a pair of ids): the comparison then runs through the element-wise steps of array / object equality
+        let (a, b) = match src.below(8) {
+            0 => (J::Arr(vec![J::Int(1), a]), J::Arr(vec![J::Int(1), b])),
+            1 => (J::Obj(vec![("k".into(), a)]), J::Obj(vec![("k".into(), b)])),
+            _ => (a, b),
+        };
         rows.push(J::Obj(vec![("a".into(), a), ("b".into(), b)]));
     }
     let doc = J::Arr(rows);
